@@ -32,7 +32,7 @@ def run(chk):
     chk.extra['negative_configurations_refuted'] = ['MC_CopyLoad_neg_dddmp.cfg (root ids handed over unmapped)']
     tmp = os.path.join(chk.dir, 'tmp')
     n = tlcrun.NCPU
-    per = 40 if q else 2500
+    per = chk.th(40, 2500)
     tasks = [dict(shard=chk.shard('d_c16_%d' % i), tid0=16000000 + i,
                   seed=chk.seed * 29 + i, ncases=per, tmpdir=tmp)
              for i in range(n)]
